@@ -81,7 +81,14 @@ _scratch_root = None
 def scratch_root():
     global _scratch_root
     if _scratch_root is None:
-        _scratch_root = tempfile.mkdtemp(prefix='verif-%d-' % os.getpid(), dir=SHM)
+        # a process started by a check (pool worker, forked client, script) works inside the check's own root: it may
+        # be killed or leave through os._exit, and nothing of it should stay behind
+        parent = os.environ.get('VERIF_SCRATCH_PARENT')
+        if parent and os.path.isdir(parent):
+            _scratch_root = tempfile.mkdtemp(prefix='p%d-' % os.getpid(), dir=parent)
+        else:
+            _scratch_root = tempfile.mkdtemp(prefix='verif-%d-' % os.getpid(), dir=SHM)
+            os.environ['VERIF_SCRATCH_PARENT'] = _scratch_root
         atexit.register(shutil.rmtree, _scratch_root, True)
     return _scratch_root
 
